@@ -287,6 +287,22 @@ class FullExecutor(Executor):
                         raise Unsupported(f"{cls.__name__}(): missing field {n}")
             return self.wrap(st, rec_make(rt, vals), stmt_level)
         if inspect.isclass(cls) and issubclass(cls, BaseException):
+            # an exception class of a declared (heap) family built as a *value* (violations are exception objects):
+            # allocate it and apply the nearest constructor contract up the MRO (assumed to cover the subclass)
+            for base in inspect.getmro(cls):
+                bc = CONTRACTS.get(f"{base.__module__}:{base.__qualname__}.__init__") or CONTRACTS.get(f"{base.__module__}:{base.__qualname__}")
+                if base in REF_TYPES and bc is not None and bc.kind != "inline":
+                    ref = self.alloc(st, REF_TYPES[base])
+                    hook = CLASS_OF_HOOK.get(REF_TYPES[base].cls)
+                    if hook is not None:
+                        hook(self, st, ref, cls)
+                    outs = self.call_contract(st, bc, [ref] + args, kwargs, True, node, real_fn=base.__init__)
+                    res = [(s2, Outcome("value", ref) if oc.kind == "value" else oc) for s2, oc in outs]
+                    if stmt_level:
+                        return res
+                    if len(res) == 1 and res[0][1].kind == "value":
+                        return ref
+                    raise Unsupported("constructor that may raise in expression position")
             return self.wrap(st, PyObj(("exc", cls, args)), stmt_level)
         k = key_of(cls.__init__) if hasattr(cls, "__init__") else None
         ck = f"{cls.__module__}:{cls.__qualname__}"
@@ -980,6 +996,13 @@ class FullExecutor(Executor):
                 nv = fresh(st.env[n].ty, f"h_{n}")
                 wf_assumptions(nv, st)
                 st.env[n] = nv
+            elif n in st.env and isinstance(st.env[n], SDict):
+                t = self.local_types.get(n)
+                if t is None:
+                    raise Unsupported(f"loop-modified dict {n} has no static type (declare a dict-record type in `types`)")
+                nv = fresh(t, f"h_{n}")
+                wf_assumptions(nv, st)
+                st.env[n] = nv
             elif n in st.env and isinstance(st.env[n], (K, STuple)):
                 t = self.local_types.get(n)
                 if t is None:
@@ -1094,6 +1117,8 @@ class FullExecutor(Executor):
         mode = "list"
         if isinstance(src, V) and isinstance(src.ty, TOpt):
             src = unwrap_opt(src)
+        if isinstance(src, V) and src.ty == SINK:
+            src = fresh_seq(TList(SINK), st, "sinklist")     # iterating a reporting object: any number of sinks
         lo = z3.IntVal(0)
         if isinstance(src, PyObj) and isinstance(src.o, tuple):
             tag = src.o[0]
@@ -1203,6 +1228,7 @@ class FullExecutor(Executor):
 
 
 WITH_HOOKS: dict = {}
+CLASS_OF_HOOK: dict = {}     # ref-class name -> fn(executor, st, ref, real_class): record the dynamic class of a new object
 SINK_FUNCTIONS: set = set()      # "module:qualname" of UI functions whose calls are no-ops on the tracked state
 
 
